@@ -426,7 +426,8 @@ func (c *Client) recv(keepaliveQuit chan<- struct{}) {
 			// TCP messages should arrive in order, so we can expect to get nothing more after this occurs
 			c.transport.ReceivedStreamClose()
 			return
-		default:
+		case stanza.Message, stanza.Presence, *stanza.IQ:
+			// Only stanzas are counted for stream management, not nonzas (XEP-0198, section 4)
 			c.Session.SMState.Inbound++
 		}
 		// Do normal route processing in a go-routine so we can immediately
